@@ -13,7 +13,11 @@ class EventLog(object):
         self.clock = clock
         self.actor = "main"  # the scheduler overwrites this with the running thread's name
 
+    frozen = False  # set when a run is torn down: unwinding threads must not extend the history
+
     def add(self, kind, *payload):
+        if self.frozen:
+            return None
         t = self.clock.us if self.clock is not None else 0
         ev = (len(self.events), self.actor, t, kind) + payload
         self.events.append(ev)
@@ -67,6 +71,8 @@ class SimOutputStream(OutputStream):
             self.log.add("write_fault", self.name, "EPIPE")
             raise IOError(32, "simulated: broken pipe on %s" % self.name)
         ev = self.log.add("write", self.name, string)
+        if ev is None:
+            return
         self.writes.append((ev[0], string))
         if self.screen is not None:
             self.screen.feed(string)
